@@ -307,7 +307,7 @@ def _run(pname, algname, selname, tier, seed):
                     continue
                 except Exception as e:  # the library raising here is a violation (all inputs are in the documented domain)
                     ctx.ev((pname, selname, algname, args, "rw-exc"), nontrivial=True)
-                    ctx.fail(blame(e, "Marginal.random_weighted"), "random_weighted", icls, f"exception:{type(e).__name__}", dict(idn, msg=_plain(str(e))[:400]))
+                    ctx.fail(blame(e, "Marginal.random_weighted"), "random_weighted", icls.split(";")[0], f"exception:{type(e).__name__}", dict(idn, msg=_plain(str(e))[:400]))
                     continue
                 ctx.note("trees")
                 ctx.note("paths", len(paths))
@@ -362,7 +362,7 @@ def _run(pname, algname, selname, tier, seed):
                         # beartype rejects every positional model argument that is not a tuple (annotation
                         # `*args: tuple[Any, ...]`): one coarse class, independent of selection / algorithm
                         hint = "violates type hint" in str(e) and any(not isinstance(a, tuple) for a in args)
-                        ctx.fail(blame(e, "Marginal.estimate_logpdf"), "estimate_logpdf", "args=non-tuple" if hint else icls,
+                        ctx.fail(blame(e, "Marginal.estimate_logpdf"), "estimate_logpdf", "args=non-tuple" if hint else icls.split(";")[0],
                                  f"exception:{type(e).__name__}", dict(idn, sample=list(s), msg=_plain(str(e))[:400]))
                         break
                     ctx.note("trees")
